@@ -38,7 +38,7 @@ def run(ctx):
         Ob('counting', 'ob_counting', 'ops: List[int]',
            pre=['len(ops) <= %d' % (4 if T else 3), 'all(0 <= o < 14 for o in ops)'],
            cells=ccells,
-           timeout=tmo, twin_fn='tw_counting', twin_pre=['len(ops) == 3'], confirm='confirm_counting',
+           timeout=max(tmo, 240), twin_fn='tw_counting', twin_pre=['len(ops) == 3'], confirm='confirm_counting',
            desc='StatsMiddleware.request + report/reset endpoints vs model counter; next() outcome by selector'),
         Ob('e2e_counting', 'ob_e2e_counting', '', packed=[('o0', 14), ('o1', 14), ('o2', 14), ('o3', 14)],
            cells=[('o%d_%d' % (a, b), [{'o0': a, 'o1': b}]) for a in range(0, 14, 2) for b in range(14) if (T or (b % 2 == 0 and b >= 8) or a >= 10)], timeout=tmo, confirm='confirm_e2e_counting',
